@@ -396,7 +396,17 @@ impl<'a, R: Resolve, U: Updater> Cloner for Importer<'a, R, U> {
     fn clone_rcref<T: DeepClone + ObjectWrite + DataSize>(&mut self, old: &RcRef<T>) -> Result<RcRef<T>> {
         let old_ref = old.get_ref().get_inner();
         if let Some(&new_ref) = self.map.get(&old_ref) {
-            let arc = self.rcrefs.get(&new_ref).unwrap().clone().downcast()?;
+            if let Some(any) = self.rcrefs.get(&new_ref) {
+                let arc = any.clone().downcast()?;
+                return Ok(RcRef::new(new_ref, arc));
+            }
+            // the object was copied through clone_ref / clone_plainref before, which keep no typed value:
+            // build it now (every reference in it is in the memo already, nothing new is created)
+            self.enter(old_ref)?;
+            let new = old.data().deep_clone(self);
+            self.pending.pop();
+            let arc = Shared::new(new?);
+            self.rcrefs.insert(new_ref, AnySync::new(arc.clone()));
             return Ok(RcRef::new(new_ref, arc));
         }
 
